@@ -55,10 +55,10 @@ package health
 // starts from multiplier m; nextMult: multiplier stored by that check.
 //@ spec func backoffM(f int) int = ite(f <= 0, 1, ite(f == 1, 2, ite(f == 2, 4, ite(f == 3, 8, 12))))
 //@ spec func nextMult(m int) int = ite(m <= 1, 2, min(2 * m, 12))
-//@ spec func delayOf(iv int, m int) int = ite(m <= 1, iv, min(iv * m, 60000000000))
+//@ spec func delayOf(iv int, m int) int = min(iv * max(m, 1), 60000000000)
 //@ lemma sched_step C07: forall f int :: f >= 0 ==> nextMult(backoffM(f)) == backoffM(f + 1)
-//@ lemma sched_delay C07: forall f int, iv int :: f >= 0 && iv >= 0 ==> delayOf(iv, backoffM(f)) == min(iv * backoffM(f), ite(f == 0, iv, 60000000000))
-//@ lemma sched_bounded C07: forall f int, iv int :: f >= 0 && iv >= 0 ==> delayOf(iv, backoffM(f)) <= max(iv, 60000000000)
+//@ lemma sched_delay C07: forall f int, iv int :: f >= 0 && iv >= 0 ==> delayOf(iv, backoffM(f)) == min(iv * backoffM(f), 60000000000)
+//@ lemma sched_bounded C07: forall f int, iv int :: f >= 0 && iv >= 0 ==> delayOf(iv, backoffM(f)) <= 60000000000
 
 //@ func determineStatus
 //@   property C07 C20
@@ -80,6 +80,7 @@ package health
 
 //@ func calculateBackoff
 //@   property C07
+//@   replay health_calculatebackoff : endpoint.CheckInterval ; endpoint.BackoffMultiplier ; success
 //@   requires endpoint != nil
 //@   ensures success ==> res0 == endpoint.CheckInterval && res1 == 1
 //@   ensures !success ==> res0 == delayOf(endpoint.CheckInterval, endpoint.BackoffMultiplier) && res1 == nextMult(endpoint.BackoffMultiplier)
